@@ -1,1 +1,142 @@
-From Verif Require Import Common.Base C03.Model C03.Proofs.
+(* C03/Properties.v — the property theorems, nothing else.  Model: C03/Model.v (a labelled transition
+   system of the exporter helper's queue + batcher + retry + shutdown threads; every theorem quantifies
+   over ALL configurations [c] and ALL label lists [ls], i.e. all interleavings of producers, consumers,
+   flush goroutines, timer goroutine, backend answers (success / transient / permanent, in any order and
+   at any time) and the Shutdown caller, with no bound on length).
+   Ghost fields used in the statements (all append-only, see [step]):
+     accpre s   ids whose Offer was accepted before Shutdown was called     (accpre_spec reads it off the trace)
+     begun s    ids handed to the export function, one entry per call that contains the id
+     ended s    the same for calls that have returned;   failures s = number of calls that returned an error
+     finished s (id, result of the sender chain) once the queue's Done callback has run
+     store s    persistent queue: ids whose body is in the storage *)
+From Verif Require Import Common.Base C03.Model C03.Proofs C03.Proofs2 C03.Proofs3.
+
+(* ---- in-memory queue ---------------------------------------------------------------------------
+   When Shutdown has returned, every request accepted before Shutdown was called has been handed to the
+   export function at least once — exactly once if no export call of the run failed — its Done callback
+   has run, and every export call has returned. *)
+Theorem shutdown_drains_memory : forall c ls s,
+  c_persist c = false -> 1 <= c_ncons c ->
+  run c (init c) ls = Some s -> pc s = PReturned ->
+  (forall i, In i (accpre s) ->
+     1 <= cnt i (begun s) /\ (failures s = 0 -> cnt i (begun s) = 1) /\ exists r, In (i, r) (finished s))
+  /\ (forall i, cnt i (ended s) = cnt i (begun s)).
+Proof. exact drains_memory_l. Qed.
+
+(* [accpre] is what the property calls "enqueue completed before shutdown was requested" *)
+Theorem accpre_spec : forall c l1 l2 s, ~ In LShutCall l1 ->
+  run c (init c) (l1 ++ LShutCall :: l2) = Some s ->
+  forall i, In i (accpre s) <-> In i (offers l1).
+Proof. exact accpre_spec_l. Qed.
+
+(* ---- persistent queue ---------------------------------------------------------------------------
+   When Shutdown has returned, every accepted request (before or after the call) is still in the storage
+   or has finished export — successfully or with a final failure, never with a mere shutdown
+   interruption — and was then handed to the export function at least once; all export calls have
+   returned; the storage client has been closed (hence: not before the last in-flight item completed). *)
+Theorem shutdown_persistent : forall c ls s,
+  c_persist c = true -> run c (init c) ls = Some s -> pc s = PReturned ->
+  (forall i, In i (accepted s) ->
+     In i (store s) \/ exists r, In (i, r) (finished s) /\ r <> RShutdown /\ 1 <= cnt i (begun s))
+  /\ (forall i, cnt i (ended s) = cnt i (begun s))
+  /\ closed s = true.
+Proof. exact persistent_l. Qed.
+
+(* the storage client is closed exactly when no reference is left: while a request is in flight
+   (taken from the queue, not yet Done) the client stays open, also after the queue was stopped *)
+Theorem client_open_while_in_flight : forall c ls s,
+  c_persist c = true -> run c (init c) ls = Some s ->
+  closed s = Nat.eqb (refs s) 0 /\ refs s = (if qstop s then 0 else 1) + inflight_len s.
+Proof.
+  exact (fun c ls s P R =>
+    let I := run_inv c ls (init c) s (init_inv c) R in
+    conj (eq_trans (i_closed c s I) (f_equal (fun b => b && Nat.eqb (refs s) 0) P)) (i_refs c s I P)).
+Qed.
+
+(* ---- nothing happens after the return ------------------------------------------------------------
+   In a state where Shutdown has returned no helper goroutine is alive, and the only enabled labels are
+   producers' offers: no consumer, flush, timer, retry or export step — in particular no export begin. *)
+Theorem no_work_after_return : forall c ls s,
+  run c (init c) ls = Some s -> pc s = PReturned ->
+  live s = 0 /\ postb s = 0 /\ forall l s', step c s l = Some s' -> is_offer l = true /\ pc s' = PReturned.
+Proof. exact after_return_l. Qed.
+
+(* trace form: whatever follows a returned state consists of offers only and begins no export;
+   moreover no export ever begins once the wrapped exporter has been shut down ([postb] counts them) *)
+Theorem no_begin_after_return : forall c ls2 ls1 s1 s2,
+  run c (init c) ls1 = Some s1 -> pc s1 = PReturned -> run c s1 ls2 = Some s2 ->
+  forallb is_offer ls2 = true /\ begun s2 = begun s1 /\ pc s2 = PReturned.
+Proof. exact (fun c => no_begin_after_return_l c). Qed.
+
+Theorem no_begin_after_inner_shutdown : forall c ls s, run c (init c) ls = Some s -> postb s = 0.
+Proof. exact (fun c ls s R => i_postb c s (run_inv c ls (init c) s (init_inv c) R)). Qed.
+
+(* ---- the partial batch ----------------------------------------------------------------------------
+   Whatever sits in the batcher's current batch at ANY point of a run (in particular when the final
+   flush takes it) has been exported and finished by the time Shutdown returns; both queue kinds. *)
+Theorem partial_batch_flushed : forall c ls1 ls2 s1 s2,
+  run c (init c) ls1 = Some s1 -> run c s1 ls2 = Some s2 -> pc s2 = PReturned ->
+  forall i, In i (current s1) -> 1 <= cnt i (begun s2) /\ exists r, In (i, r) (finished s2).
+Proof. exact partial_batch_l. Qed.
+
+Theorem final_flush_takes_current : forall c s s', step c s LFinalFlush = Some s' ->
+  current s' = [] /\ (current s <> [] -> pc s' = PFlushWait (current s)).
+Proof. exact final_flush_takes. Qed.
+
+(* ---- termination ----------------------------------------------------------------------------------
+   [ranked] labels = every label except producers' offers and the back-off timer branch.
+   (1) every ranked step strictly decreases the measure [mu] (except the no-op tick of the batch timer),
+       so no run of ranked labels is longer than mu: no infinite run avoids Return;
+   (2) while Shutdown has been called and has not returned some ranked label is enabled (the backend
+       answering a call is one) — no deadlock in the join conditions;
+   (3) hence Return is reachable from every reachable state after the call, within mu steps.
+   Partial: the back-off timer branch is excluded.  Before close(stopCh) that is inherent (a backend that
+   always fails transiently is retried for ever); after it the Go select can still take the timer
+   branch when both are ready (zero/elapsed interval, finding S4 of C05), and the faithful model allows
+   it, so an unconditional statement is false of the model: see shutdown_terminates_refuted. *)
+Theorem shutdown_terminates_partial : forall c ls s,
+  (c_batch c = true -> 1 <= c_nwork c) ->
+  run c (init c) ls = Some s -> is_not (pc s) = false ->
+  (exists ls' s', run c s ls' = Some s' /\ pc s' = PReturned /\ forallb ranked ls' = true /\ length ls' <= mu s)
+  /\ (pc s <> PReturned -> exists l s', step c s l = Some s' /\ ranked l = true /\ mu s' < mu s)
+  /\ (forall ls' s', run c s ls' = Some s' -> forallb ranked ls' = true ->
+        mu s' + length (filter (fun l => match l with LTimerFire => false | _ => true end) ls') <= mu s).
+Proof.
+  exact (fun c ls s WF R N =>
+    let I := run_inv c ls (init c) s (init_inv c) R in
+    conj (reach_return c WF (mu s) s (le_n _) I N)
+      (conj (fun NR => match progress c s I WF N NR with
+                       | ex_intro _ l (ex_intro _ s' (conj St (conj Rk NT))) =>
+                           ex_intro _ l (ex_intro _ s' (conj St (conj Rk (strict c s l s' St Rk NT))))
+                       end)
+            (fun ls' s' => ranked_runs_bounded c ls' s s'))).
+Qed.
+
+(* The unconditional statement ("from every reachable state after close(stopCh), every maximal run of the
+   exporter's own threads with an answering backend reaches Return") is FALSE of the faithful model:
+   there is a reachable state after the stop and a non-empty cycle of labels (back-off timer branch,
+   export begins, export fails transiently) that returns to the same control state [ctl] — only the
+   ghost logs grow — so it can be repeated for ever.  (C05's finding S4; needs the timer channel and
+   stopCh ready together, i.e. a zero or already elapsed interval.) *)
+Theorem shutdown_terminates_refuted : exists c ls s cyc s',
+  run c (init c) ls = Some s /\ rstop s = true /\ is_not (pc s) = false /\ pc s <> PReturned /\
+  cyc <> [] /\ run c s cyc = Some s' /\ ctl s' = ctl s /\ mu s' = mu s /\ length (begun s') = S (length (begun s)).
+Proof. exact refuted_l. Qed.
+
+(* ---- the model that the correspondence run executes is this LTS ---------------------------------- *)
+Theorem scheduler_runs_are_runs : forall hc acts ls evss s,
+  exec hc [] (init (h_cfg hc)) acts = Some (ls, evss, s) -> run (h_cfg hc) (init (h_cfg hc)) ls = Some s.
+Proof. exact (fun hc acts => exec_run_l hc acts [] (init (h_cfg hc))). Qed.
+
+Print Assumptions shutdown_drains_memory.
+Print Assumptions accpre_spec.
+Print Assumptions shutdown_persistent.
+Print Assumptions client_open_while_in_flight.
+Print Assumptions no_work_after_return.
+Print Assumptions no_begin_after_return.
+Print Assumptions no_begin_after_inner_shutdown.
+Print Assumptions partial_batch_flushed.
+Print Assumptions final_flush_takes_current.
+Print Assumptions shutdown_terminates_partial.
+Print Assumptions shutdown_terminates_refuted.
+Print Assumptions scheduler_runs_are_runs.
